@@ -244,7 +244,7 @@ def run(tier):
     scenarios = [{"id": i + 1, "kind": "c10", "cfg": c, "connect_s": 15} for i, c in enumerate(cfgs)]
     runs = run_harness(ck, scenarios, tier, shards)
     results = validate_runs(ck, runs, "grp")
-    reported, nontrivial = set(), set()
+    reported, nontrivial, confirmed = set(), set(), {}
     for r, broken in results:
         sc = r[0]["scenario"]
         hard = [v for v in broken if v[0] != "EXT"]
@@ -257,8 +257,12 @@ def run(tier):
             sig = signature(sc["cfg"], v)
             k = json.dumps(sig, sort_keys=True)
             record = {"cfg": sc["cfg"], "broken": list(v), "end": r[-1], "replay": sc}
-            if v[0] in LIVENESS_RULES and k not in reported and ck.known.match(PID, sig) is None:
-                if not confirm(ck, sc, v[0]):
+            if (v[0] in LIVENESS_RULES and k not in reported and ck.known.match(PID, sig) is None
+                    and confirmed.get(v[0], 0) < 2):
+                # (once two signatures of a rule have been reproduced 3x, further ones of that rule are taken as is)
+                if confirm(ck, sc, v[0]):
+                    confirmed[v[0]] = confirmed.get(v[0], 0) + 1
+                else:
                     ck.notes.append(f"unconfirmed (not reproduced 3x): {v} in {sc['cfg']}")
                     continue
             reported.add(k)
